@@ -511,6 +511,11 @@ class WsgiApplication(HttpBase):
         try:
             self.get_out_string(p_ctx)
 
+            if not self.chunked:
+                # the response is sent in one piece: build it here, where a
+                # failure can still be answered with a fault.
+                p_ctx.out_string = [b''.join(p_ctx.out_string)]
+
         except Fault as e:
             # raised by user code that runs while the response is built (the
             # body of a generator method): report it as it is, like a Fault
